@@ -354,6 +354,9 @@ func (in *Interp) visitInstr(fr *frame, instr ssa.Instruction) continuation {
 		}
 		fr.env[instr] = sl[:l]
 
+	case *ssa.MakeChan:
+		fr.env[instr] = Native{V: new(int)}
+
 	case *ssa.MakeMap:
 		fr.env[instr] = newMap(instr.Type().Underlying().(*types.Map).Key())
 
@@ -462,6 +465,26 @@ func (in *Interp) prepareCall(fr *frame, call *ssa.CallCommon) (fn Value, args [
 		recv := v.(Iface)
 		if recv.T == nil {
 			in.tpanic("nil-deref", "runtime error: invalid memory address or nil pointer dereference (method on nil interface)")
+		}
+		if nv, ok := recv.V.(Native); ok {
+			if fi, isFI := nv.V.(fakeFileInfo); isFI {
+				name := call.Method.Name()
+				fn = &NativeFn{Name: "os.FileInfo." + name, F: func(fr *frame, args []Value) Value {
+					switch name {
+					case "IsDir":
+						return mkBool(fi.dir)
+					case "Name":
+						return mkStr("f")
+					case "Size":
+						return mkInt(types.Int64, 0)
+					}
+					panic(engineErr("UNSUPPORTED os.FileInfo method " + name))
+				}}
+				for _, a := range call.Args {
+					args = append(args, fr.get(a))
+				}
+				return
+			}
 		}
 		if rt, ok := recv.V.(RT); ok {
 			// reflect.Type method
